@@ -176,12 +176,40 @@ def call_function(it, fn, args, kwargs):
             if _all_structured(bound):
                 it.used.add(c.qualname)
                 return run_body(it, fn, bound)      # nothing opaque: the real body decides
-            return abstract_call(it, c, fn, bound)
-        return call_by_contract(it, c, fn, bound)
+            return _logged(it, c, bound, lambda: abstract_call(it, c, fn, bound))
+        return _logged(it, c, bound, lambda: call_by_contract(it, c, fn, bound))
     if top in ('spec', 'contracts', 'pyvc'):
         bound = bind_args(fn, args, kwargs)
         return run_body(it, fn, bound)
     return it.models_mod.call_native(it, fn, args, kwargs)
+
+
+def _logged(it, c, bound, thunk):
+    """Ghost log of the calls made by contract (for clauses that say which calls an iteration
+    makes and relate their arguments and results: calls_since / call_result / call_arg)."""
+    log = it.__dict__.setdefault('call_log', [])
+    e = dict(q=c.qualname, args=dict(bound), result=None, done=False, cond=bool(it.ctx.nofork))
+    log.append(e)
+    r = thunk()
+    e['result'] = r
+    e['done'] = True
+    return r
+
+
+def _log_entries(it, iter_, f):
+    f = getattr(f, '__func__', f)
+    c2 = it.registry.lookup(f)
+    if c2 is None:
+        raise EngineError('calls_since / call_result: the function has no contract')
+    start = 0
+    if iter_ is not None:
+        start = iter_.fields.get('__calls__')
+        if start is None:
+            raise EngineError('calls_since: not an iteration snapshot')
+    es = [e for e in getattr(it, 'call_log', [])[start:] if e['q'] == c2.qualname]
+    if any(e['cond'] for e in es):
+        raise EngineError(f'calls_since: a call of {c2.qualname} was made inside a merged branch')
+    return es
 
 
 def clause_args(it, cfn, ns):
@@ -734,6 +762,21 @@ def intrinsic(it, name, args, kwargs):
         return json_conforms(it, args[0], args[1], '$')
     if name == 'json_text':
         return it.models_mod._json_dumps(it, args[0])
+    if name == 'calls_since':
+        return len(_log_entries(it, args[0], args[1]))
+    if name == 'last_call_raised':
+        es = _log_entries(it, args[0], args[1])
+        return len(es) > 0 and not es[-1]['done']
+    if name in ('call_result', 'call_arg'):
+        es = _log_entries(it, args[0], args[1])
+        k = args[2]
+        if not isinstance(k, int) or not (0 <= k < len(es)):
+            raise EngineError(f'{name}: there is no call number {k}')
+        if name == 'call_arg':
+            return es[k]['args'][args[3]]
+        if not es[k]['done']:
+            raise EngineError('call_result: that call did not return')
+        return es[k]['result']
     if name == 'local_assigned':
         fr_, nm = args
         v = fr_.fields.get(nm, UNBOUND)
